@@ -3,9 +3,9 @@ from corr import kern_family
 from checks import _sym
 from oracles import c12 as oracle
 
-GEN = ["Const", "Tol", "CylSegGen"] + _sym.GEN
-LEAN_TARGETS = ["MagpyVerif.Props.C12", "MagpyVerif.Gen.CylSegGen"] + _sym.LEAN_TARGETS  # CylSegGen: the regenerated CylinderSegment translation and its `sync_*` theorems against the frozen model
-PROPS = ["MagpyVerif.Props.C12"] + _sym.PROPS
+GEN = ["Const", "Tol", "CylSegGen", "AbsLen", "PathPad"] + _sym.GEN  # AbsLen: absolute-length constructs in the pose / marshalling sources (translate/abslen.py), pinned by Props/C12b
+LEAN_TARGETS = ["MagpyVerif.Props.C12", "MagpyVerif.Props.C12b", "MagpyVerif.Gen.CylSegGen"] + _sym.LEAN_TARGETS  # CylSegGen: the regenerated CylinderSegment translation and its `sync_*` theorems against the frozen model
+PROPS = ["MagpyVerif.Props.C12", "MagpyVerif.Props.C12b"] + _sym.PROPS  # C12b: homogeneity of the pose machinery and of the getBH_level2 pipeline, arrangement_unit_invariant, abs_sites_pinned
 
 
 def run(ctx, model_ok):
@@ -21,6 +21,23 @@ def run(ctx, model_ok):
     if ctx.driver_ok:
         from corr import trimesh_family as _tf
         ctx.cov["correspondence_trimesh_inside"] = _tf.run_inside_stream(ctx, ctx.scale(150, 5000))
+    # the pose machinery (Props/C12b): the model the homogeneity theorems are about is tied to the code by the `path` stream (exact, C09 / C10); the
+    # `path-scale` stream runs every history on the REAL objects a second time with all lengths times 2^k and compares bit for bit
+    from corr import path_family as _pf
+    if ctx.driver_ok:
+        pst = _pf.run_stream(ctx, ctx.scale(40, 1000), ctx.scale(10, 12), equal_lengths_share=0.2)
+        pst.pop("samples", None)
+        ctx.cov["correspondence_path"] = pst
+    sst = _pf.run_scale_stream(ctx, ctx.scale(120, 3000), ctx.scale(10, 12))
+    ctx.cov["samples"] = (ctx.cov.get("samples") or []) + sst.pop("samples")[:1]
+    ctx.cov["correspondence_path_scale"] = sst
+    ctx.cov["path_scale_rule"] = ("path-scale: seeded random histories of the `path` stream (move / rotate / rotate_from_* / angax / position= / orientation= / reset_path / add / remove / "
+                                  "malformed calls on collection trees) executed on the real objects as generated and with every length times 2^k, k in -20..20; after every operation "
+                                  "all position paths must be the scaled ones and all quaternion paths identical BIT FOR BIT, outcomes equal; rows = position-path rows compared")
+    if "evaluations" in ctx.cov:
+        ctx.cov["evaluations"] += sst["rows"]
+        ctx.cov["distinct_nontrivial"] += sst["nonzero_position_rows"]
+        ctx.cov["traces_validated_against_impl"] += sst["histories"]
     # the CylinderSegment theorems are about Model/CylSeg*.lean: is the frozen translation still what the source says, and does the port agree with the real code?
     from checks import _cylseg
     _cylseg.run(ctx, ctx.scale(300, 10000))
@@ -31,7 +48,18 @@ def run(ctx, model_ok):
     ctx.cov.setdefault("evaluations", ost["c12_cases"])
     ctx.cov.setdefault("distinct_nontrivial", ost["c12_cases"])
     ctx.cov.setdefault("samples", [ost])
-    ctx.cov["not_shown"] = ["CylinderSegment: the ported BHJM_cylinder_segment is proved unit-free for r2 != 0 (cylseg_scale_invariant, special functions opaque: the prologue divides by the "
+    ctx.cov["not_shown"] = ["pose machinery and getBH_level2 pipeline: homogeneity IS proved (Props/C12b: step_homogeneous / history_homogeneous for every operation, history, tree and every "
+                            "additive map commuting with the rotation action — for v -> s*v on R^3 with EVERY real s — and on the driver's integer carrier; tensor_unit_covariant / "
+                            "getBH_unit_covariant / arrangement_unit_invariant for every history followed by getB, s > 0, each source's field function assumed homogeneous of degree -d = the kernel "
+                            "theorems). Not shown there: (a) it is a statement about the MODEL in exact arithmetic — tied to the code by the exact `path` / `level2` streams, by the `path-scale` "
+                            "stream (real objects at a second scale 2^k, bit for bit) and by the regenerated site list Gen/AbsLen (abs_sites_pinned: no rounding / isclose / atol / "
+                            "literal-comparison on a length in class_BaseTransform / class_BaseGeo / class_Collection / utility / field_wrap_BH; the sites that exist are exact quaternion "
+                            "comparisons, array-size arithmetic and show()'s unit prefixes) — a syntactic scan: an absolute length hidden behind a helper in another module, or built from "
+                            "integer-valued literals, escapes it and is left to the two streams and the posed-arrangement oracle; (b) arrangement_unit_invariant takes ONE degree d for all sources "
+                            "of a call (mixed degrees: tensor_unit_covariant_per_entry, through level2_refines, not combined with histories); (c) float scaling by factors that are not "
+                            "powers of two (rounding differs; oracle tolerance 1e-9), over- / underflow at extreme units; (d) input validation (`check_format_input_vector` etc.) is scale-free by "
+                            "inspection of the scan only — the validators are not part of the path model (rejected calls are the `rejected` operation)",
+                            "CylinderSegment: the ported BHJM_cylinder_segment is proved unit-free for r2 != 0 (cylseg_scale_invariant, special functions opaque: the prologue divides by the "
                             "outer radius); BHJM_cylinder_segment_internal's 360-degree branch only through the Cylinder theorem; rescaling oracle 1e-9..1e9 otherwise (proved: Dipole, Sphere, "
                             "masked Polyline row, Cuboid wrapper, Triangle, Tetrahedron, Circle, the whole ported BHJM_magnet_cylinder with cel / cel0 as opaque functions, and the TriangularMesh "
                             "inside test / bounding-box pre-filter / is_facet_inwards, tied by the trimesh-inside stream)",
